@@ -21,7 +21,35 @@ fn budget_of(eng: &mut Flounder, cmd: &str) -> Result<Option<u64>, String> {
     }
 }
 
-fn one_case(eng: &mut Flounder, black_to_move: bool, mover: (u64, u64), opp: (u64, u64), order: &[usize; 4], tail: &str, st: &mut Stats, seen: &mut HashMap<(bool, u64, u64), (u64, String)>) {
+/// The state the engine is in when the go command arrives: the position last set and how many timed
+/// searches this engine instance has really run since it was created.
+#[derive(Clone)]
+struct Setting {
+    position_cmd: String,
+    earlier_searches: u64,
+}
+
+impl Setting {
+    fn plain(black: bool) -> Setting {
+        Setting { position_cmd: if black { "position startpos moves e2e4".into() } else { "position startpos".into() }, earlier_searches: 0 }
+    }
+    /// a fresh engine brought into this state
+    fn engine(&self) -> Result<Flounder, String> {
+        let mut eng = Flounder::new();
+        engine_call(|| eng.verif_handle_command(&self.position_cmd))?;
+        eng.verif.budget_only = false;
+        for i in 0..self.earlier_searches {
+            // real, timed searches that end at once (depth 1): whatever the engine learns from
+            // finished searches about its own timing, it learns here
+            let cmd = if i % 2 == 0 { "go depth 1 wtime 60000 btime 60000 winc 1000 binc 1000" } else { "go depth 1 movetime 200" };
+            engine_call(|| eng.verif_handle_command(cmd))?;
+        }
+        eng.verif.budget_only = true;
+        Ok(eng)
+    }
+}
+
+fn one_case(eng: &mut Flounder, setting: &Setting, black_to_move: bool, mover: (u64, u64), opp: (u64, u64), order: &[usize; 4], tail: &str, st: &mut Stats, seen: &mut HashMap<(bool, u64, u64), (u64, String)>) {
     let (wt, wi, bt, bi) = if black_to_move { (opp.0, opp.1, mover.0, mover.1) } else { (mover.0, mover.1, opp.0, opp.1) };
     let pairs = [format!("wtime {}", wt), format!("btime {}", bt), format!("winc {}", wi), format!("binc {}", bi)];
     let mut cmd = String::from("go");
@@ -31,8 +59,8 @@ fn one_case(eng: &mut Flounder, black_to_move: bool, mover: (u64, u64), opp: (u6
     }
     cmd.push_str(tail);
     let side = if black_to_move { "black" } else { "white" };
-    let case = || J::obj(vec![("side_to_move", J::s(side)), ("command", J::s(cmd.clone()))]);
-    st.case(hash64(&(black_to_move, cmd.clone())), true);
+    let case = || J::obj(vec![("side_to_move", J::s(side)), ("command", J::s(cmd.clone())), ("position_command", J::s(setting.position_cmd.clone())), ("earlier_searches", J::i(setting.earlier_searches as i64))]);
+    st.case(hash64(&(setting.position_cmd.clone(), setting.earlier_searches, cmd.clone())), true);
     st.sample_tagged(side, case);
     let b = match budget_of(eng, &cmd) {
         Ok(Some(b)) => b,
@@ -53,7 +81,7 @@ fn one_case(eng: &mut Flounder, black_to_move: bool, mover: (u64, u64), opp: (u6
     if b > remaining || (remaining > 0 && b >= remaining) {
         st.violation(
             format!("C12:budget-exceeds-clock:{}:{}:{}", side, mover.0, mover.1),
-            format!("'{}' with {} to move budgets {} ms but only {} ms remain on the mover's clock", cmd, side, b, remaining),
+            format!("'{}' with {} to move (after '{}' and {} earlier searches on this engine) budgets {} ms but only {} ms remain on the mover's clock", cmd, side, setting.position_cmd, setting.earlier_searches, b, remaining),
             case(),
         );
     }
@@ -70,7 +98,7 @@ fn one_case(eng: &mut Flounder, black_to_move: bool, mover: (u64, u64), opp: (u6
                         "{} to move with {} ms + {} ms increment: '{}' budgets {} ms but '{}' budgets {} ms (only the opponent's values / token order differ)",
                         side, mover.0, mover.1, prev_cmd, prev, cmd, b
                     ),
-                    J::obj(vec![("side_to_move", J::s(side)), ("command", J::s(cmd.clone())), ("other_command", J::s(prev_cmd.clone()))]),
+                    J::obj(vec![("side_to_move", J::s(side)), ("command", J::s(cmd.clone())), ("other_command", J::s(prev_cmd.clone())), ("position_command", J::s(setting.position_cmd.clone())), ("earlier_searches", J::i(setting.earlier_searches as i64))]),
                 );
             }
         }
@@ -99,20 +127,25 @@ fn perms() -> Vec<[usize; 4]> {
 pub fn run(ctx: &Ctx) -> i32 {
     let spec = Spec {
         level: "exploration",
-        rule: "cases are go commands made of the four pairs wtime/btime/winc/binc in one of the 24 token orders (optionally followed by 'movestogo N'), with either side to move; the mover's (time, increment) range over hostile values (0, 1, around the 5 s reserve, hours) and for each the opponent's values and the order vary; the budget recorded by the hook must be identical across opponent values and orders, <= the mover's remaining time, and < it whenever any time remains. Distinct by (side to move, command text); all non-trivial. End-to-end part: the real release binary is given extreme clocks (0..900 ms left, increments up to 10 s) in middlegames and the CPU time it consumes before answering must stay within the remaining time + 500 ms",
+        rule: "cases are go commands made of the four pairs wtime/btime/winc/binc in one of the 24 token orders (optionally followed by 'movestogo N'), with either side to move; the mover's (time, increment) range over hostile values (0, 1, around the 5 s reserve, hours) and for each the opponent's values and the order vary; the budget recorded by the hook must be identical across opponent values and orders, <= the mover's remaining time, and < it whenever any time remains. The grid is run on fresh engines at the start position (either side to move) and, reduced, on other engine states: positions with few and with many legal moves (up to 218) and engine instances that have already run 1..40 real timed searches. Distinct by (engine state, command text); all non-trivial. End-to-end part: the real release binary is given extreme clocks (0..900 ms left, increments up to 10 s) in middlegames and the CPU time it consumes before answering must stay within the remaining time + 500 ms",
         assumptions: vec!["the budget observed is the Duration handed to find_best_move (hook in handle_go_command); that the search honours it is property C07".into()],
-        required: if ctx.replay.is_some() { vec![] } else { vec!["invariance_comparisons", "clock_zero", "clock_at_or_below_reserve", "clock_above_reserve", "increment_exceeds_remaining", "blackbox_go_with_extreme_clocks"] },
+        required: if ctx.replay.is_some() { vec![] } else { vec!["invariance_comparisons", "clock_zero", "clock_at_or_below_reserve", "clock_above_reserve", "increment_exceeds_remaining", "blackbox_go_with_extreme_clocks", "engine_states_other_than_a_fresh_start_position", "engine_states_after_12_or_more_timed_searches", "engine_states_with_more_than_30_legal_moves"] },
         exhaustive: false,
         extra: vec![],
     };
     let all_perms = perms();
     if let Some(r) = ctx.replay.as_ref() {
         let mut st = Stats::new();
-        let mut eng = Flounder::new();
-        eng.verif.budget_only = true;
         if let Some(c) = r.get("case") {
             let black = c.str_of("side_to_move") == "black";
-            eng.verif_handle_command(if black { "position startpos moves e2e4" } else { "position startpos" });
+            let setting = if c.str_of("position_command").is_empty() { Setting::plain(black) } else { Setting { position_cmd: c.str_of("position_command"), earlier_searches: c.int_of("earlier_searches").max(0) as u64 } };
+            let mut eng = match setting.engine() {
+                Ok(e) => e,
+                Err(m) => {
+                    st.inconclusive.push(format!("replay: cannot set the engine up: {}", m));
+                    return finalize(ctx, spec, st);
+                }
+            };
             let mut budgets = vec![];
             for key in ["command", "other_command"] {
                 let cmd = c.str_of(key);
@@ -143,14 +176,16 @@ pub fn run(ctx: &Ctx) -> i32 {
     let total = parallel(ctx.workers, |w| {
         let mut st = Stats::new();
         let mut rng = Rng::new(ctx.seed, 500 + w as u64);
-        let mut eng = Flounder::new();
-        eng.verif.budget_only = true;
         let mut idx = 0usize;
         for black in [false, true] {
-            if engine_call(|| eng.verif_handle_command(if black { "position startpos moves e2e4" } else { "position startpos" })).is_err() {
-                st.inconclusive.push("position command failed".into());
-                return st;
-            }
+            let setting = Setting::plain(black);
+            let mut eng = match setting.engine() {
+                Ok(e) => e,
+                Err(_) => {
+                    st.inconclusive.push("position command failed".into());
+                    return st;
+                }
+            };
             let mut seen = HashMap::new();
             for &t in TIMES.iter() {
                 for &inc in INCS.iter() {
@@ -160,12 +195,12 @@ pub fn run(ctx: &Ctx) -> i32 {
                     }
                     // first the canonical command, then variants that differ only in the
                     // opponent's values, the token order and a trailing movestogo
-                    one_case(&mut eng, black, (t, inc), (t, inc), &[0, 1, 2, 3], "", &mut st, &mut seen);
+                    one_case(&mut eng, &setting, black, (t, inc), (t, inc), &[0, 1, 2, 3], "", &mut st, &mut seen);
                     for _ in 0..variants {
                         let opp = (*rng.pick(&TIMES), *rng.pick(&INCS));
                         let order = *rng.pick(&all_perms);
                         let tail = if rng.chance(1, 4) { format!(" movestogo {}", rng.range(1, 40)) } else { String::new() };
-                        one_case(&mut eng, black, (t, inc), opp, &order, &tail, &mut st, &mut seen);
+                        one_case(&mut eng, &setting, black, (t, inc), opp, &order, &tail, &mut st, &mut seen);
                     }
                     // random (non-table) values too
                     let rt = rng.below(200_000);
@@ -173,7 +208,56 @@ pub fn run(ctx: &Ctx) -> i32 {
                     for _ in 0..3 {
                         let opp = (rng.below(10_000_000), rng.below(100_000));
                         let order = *rng.pick(&all_perms);
-                        one_case(&mut eng, black, (rt, ri), opp, &order, "", &mut st, &mut seen);
+                        one_case(&mut eng, &setting, black, (rt, ri), opp, &order, "", &mut st, &mut seen);
+                    }
+                }
+            }
+        }
+        // other engine states: positions with few and many legal moves, engines that have already
+        // run timed searches (the budget must keep its guarantees whatever the position and the
+        // engine's history; nothing but the mover's clock may move it between two such commands)
+        let n_settings = ctx.budget(6, 60);
+        for k in 0..n_settings {
+            if k >= 2 && ctx.past(0.5) {
+                break;
+            }
+            let p = match k % 6 {
+                0 => crate::oracle::Pos::from_fen("r3k2r/p1ppqpb1/bn2pnp1/3PN3/1p2P3/2N2Q1p/PPPBBPPP/R3K2R w KQkq - 0 1").unwrap(),
+                1 => crate::oracle::Pos::from_fen("R6R/3Q4/1Q4Q1/4Q3/2Q4Q/Q4Q2/pp1Q4/kBNN1KB1 w - - 0 1").unwrap(),
+                2 => crate::gen::g_small(&mut rng, 5),
+                _ => crate::gen::g_game_pos(&mut rng),
+            };
+            let nl = p.legal_moves().len();
+            if nl == 0 {
+                continue;
+            }
+            let black = p.stm == crate::oracle::BLACK;
+            let setting = Setting { position_cmd: format!("position fen {}", p.to_fen()), earlier_searches: *rng.pick(&[0u64, 0, 1, 3, 12, 13, 20, 40]) };
+            let mut eng = match setting.engine() {
+                Ok(e) => e,
+                Err(m) => {
+                    st.inconclusive.push(format!("cannot bring an engine into the state ('{}', {} searches): {}", setting.position_cmd, setting.earlier_searches, m));
+                    continue;
+                }
+            };
+            st.bump("engine_states_other_than_a_fresh_start_position");
+            if setting.earlier_searches >= 12 {
+                st.bump("engine_states_after_12_or_more_timed_searches");
+            }
+            if nl > 30 {
+                st.bump("engine_states_with_more_than_30_legal_moves");
+            }
+            if nl <= 3 {
+                st.bump("engine_states_with_at_most_3_legal_moves");
+            }
+            let mut seen = HashMap::new();
+            for &t in TIMES.iter() {
+                for &inc in INCS.iter() {
+                    one_case(&mut eng, &setting, black, (t, inc), (t, inc), &[0, 1, 2, 3], "", &mut st, &mut seen);
+                    for _ in 0..2 {
+                        let opp = (*rng.pick(&TIMES), *rng.pick(&INCS));
+                        let order = *rng.pick(&all_perms);
+                        one_case(&mut eng, &setting, black, (t, inc), opp, &order, "", &mut st, &mut seen);
                     }
                 }
             }
